@@ -2,9 +2,10 @@
 
 Emits build/coq/C06/Gen.v with
 
-  gen_percentage_error / gen_relative_error / gen_asymmetric_error
-      the three private helpers as Q expressions (numpy element-wise operations become the scalar
-      operation applied per horizon step);
+  gen_point : mname -> opts -> Q -> Q -> Q -> option Q
+      for each function that computes its per-step loss itself, that loss as a Q expression of
+      y_true / y_pred / y_pred_benchmark and the options, with ALL private helpers inlined (numpy
+      element-wise operations become the scalar operation applied per horizon step);
   gen_struct : mname -> opts -> metric
       for each of the 18 public functions, WHICH helper it calls with WHICH arguments, which
       point loss (np.abs / np.square / asymmetric), which aggregate (np.average / np.mean ->
@@ -55,49 +56,32 @@ COQ_NAME = {
 }
 ORDER = ["MAE", "MSE", "MdAE", "MdSE", "MAPE", "MdAPE", "MSPE", "MdSPE", "MRAE", "MdRAE", "GMRAE",
          "GMRSE", "MASE", "MdASE", "MSSE", "MdSSE", "MAsym", "RelLoss"]
-LEAVES = ["_percentage_error", "_relative_error", "_asymmetric_error", "_weighted_geometric_mean"]
-
-# the names whose meaning the reading relies on must be bound by these imports
-IMPORTS = {
-    "np": ("numpy", None),
-    "gmean": ("scipy.stats", "gmean"),
-    "_weighted_percentile": ("sklearn.utils.stats", "_weighted_percentile"),
-    "check_consistent_length": ("sklearn.utils.validation", "check_consistent_length"),
-    "_check_reg_targets": ("sklearn.metrics._regression", "_check_reg_targets"),
-    "_mean_absolute_error": ("sklearn.metrics", "mean_absolute_error"),
-    "_mean_squared_error": ("sklearn.metrics", "mean_squared_error"),
-    "_median_absolute_error": ("sklearn.metrics", "median_absolute_error"),
-    "check_series": ("sktime.utils.validation.series", "check_series"),
-    "check_time_index": ("sktime.utils.validation.series", "check_time_index"),
-}
 
 YT, YP, YB, YTR = P("y_true"), P("y_pred"), P("y_pred_benchmark"), P("y_train")
-EPS_T = N("EPS")
+# numpy's float64 machine epsilon, however the module names it (constants are resolved by value)
+EPS_T = ("ATTR", call(N("np.finfo"), (N("np.float64"),)), "eps")
 
 
 def _load(repo, rel):
-    with open(os.path.join(repo, rel)) as f:
-        return Module(ast.parse(f.read()))
+    return Module.load(repo, rel)
 
 
 def _functions_module(repo):
     mod = _load(repo, SRC)
-    mod.require_imports(IMPORTS)
-    _need("EPS" in mod.consts and ast.dump(mod.consts["EPS"]) ==
-          ast.dump(ast.parse("np.finfo(np.float64).eps", mode="eval").body),
-          "EPS is not np.finfo(np.float64).eps")
-    missing = [f for f in list(COQ_NAME) + LEAVES if f not in mod.funcs]
+    missing = [f for f in COQ_NAME if f not in mod.funcs]
     _need(not missing, "functions missing from _functions.py: %s" % missing)
     return mod
 
 
 def _ev_kw(mod):
-    keep = set(COQ_NAME) | set(LEAVES)
-    return {"inline": [f for f in mod.funcs if f not in keep], "opaque": keep}
+    """private names are not semantic: every function of the module that is not one of the 18
+    public metrics is inlined at its call sites, wherever it is defined and whatever it is
+    called; calls of the public metrics stay calls (arguments normalised to keywords)."""
+    return {"opaque": set(COQ_NAME)}
 
 
 # ------------------------------------------------------------------------------------------------
-# part 1: the element-wise helpers -> Q expressions
+# part 1: element-wise terms -> Q expressions
 
 FTABLE = {(K("squared"), N("np.square")), (K("absolute"), N("np.abs"))}
 
@@ -160,39 +144,29 @@ class Emit:
         raise Unsupported("helper condition " + show(c))
 
 
-def gen_helpers(mod):
-    kw = _ev_kw(mod)
-    out = []
+QPARAMS = ["y_true", "y_pred", "y_pred_benchmark", "asymmetric_threshold"]
+BPARAMS = ["symmetric"]
+FPARAMS = ["left_error_function", "right_error_function"]
+OPT_OF = {"symmetric": "o_symmetric o", "asymmetric_threshold": "o_thr o",
+          "left_error_function": "o_left o", "right_error_function": "o_right o"}
 
-    def helper(name, params):
-        fn = mod.funcs[name]
-        names, _, kwarg = signature(fn)
-        _need(names == params and kwarg is None, name + " signature", fn)
-        t = evaluate(mod, fn, {}, **kw)
-        _need(not contains(t, lambda x: x == ("RAISE",)), name + " raises")
-        return t
-    t = helper("_percentage_error", ["y_true", "y_pred", "symmetric"])
-    out.append("Definition gen_percentage_error (y_true y_pred : Q) (symmetric : bool) : Q :=\n  %s."
-               % Emit(["y_true", "y_pred"], ["symmetric"], []).expr(t))
-    t = helper("_relative_error", ["y_true", "y_pred", "y_pred_benchmark"])
-    out.append("Definition gen_relative_error (y_true y_pred y_pred_benchmark : Q) : Q :=\n  %s."
-               % Emit(["y_true", "y_pred", "y_pred_benchmark"], [], []).expr(t))
-    t = helper("_asymmetric_error", ["y_true", "y_pred", "asymmetric_threshold",
-                                     "left_error_function", "right_error_function"])
-    out.append("Definition gen_asymmetric_error (y_true y_pred asymmetric_threshold : Q)\n"
-               "    (left_error_function right_error_function : pw0) : Q :=\n  %s."
-               % Emit(["y_true", "y_pred", "asymmetric_threshold"], [],
-                      ["left_error_function", "right_error_function"]).expr(t))
-    # _weighted_geometric_mean must be exp(np.average(log x, weights=w, axis=axis)): np.average
-    # applies 1-D weights along `axis` (its documented meaning, which is the model's weighted
-    # geometric mean).  Anything else - in particular a hand-written `w * np.log(x)` product, whose
-    # broadcasting is not modelled (the repaired F-C06-6) - is refused.
-    t = helper("_weighted_geometric_mean", ["x", "sample_weight", "axis"])
-    want = call(N("np.exp"), (call(N("np.average"), (call(N("np.log"), (P("x"),)),),
-                                   [("weights", P("sample_weight")), ("axis", P("axis"))]),))
-    _need(t == want, "_weighted_geometric_mean computes %s (expected exp of np.average of logs "
-          "along `axis`)" % show(t))
-    return out
+
+def emit_point(x, names):
+    """the point loss of one horizon step as a Q expression over y_true / y_pred /
+    y_pred_benchmark and the options of the function (bound from the `opts` record)."""
+    used = set()
+
+    def note(t):
+        if t[0] == "P":
+            used.add(t[1])
+        return False
+    contains(x, note)
+    _need(used <= set(names), "point loss uses %s" % sorted(used - set(names)))
+    e = Emit(QPARAMS, BPARAMS, FPARAMS).expr(x)
+    for o_, f_ in OPT_OF.items():
+        if o_ in used:
+            e = "(let %s := %s in %s)" % (o_, f_, e)
+    return e
 
 
 # ------------------------------------------------------------------------------------------------
@@ -203,7 +177,13 @@ MO_MODES = [K("raw_values"), K("uniform_average"), ARR("multioutput")]
 
 
 def _is_ite(x):
-    return x[0] in ("ITE", "RAISE")
+    """a leftover branch that is not an element-wise switch on an option of the point loss."""
+    if x[0] == "RAISE":
+        return True
+    if x[0] != "ITE":
+        return False
+    return contains(x[1], lambda t: t[0] == "ARR" or (t[0] == "P" and t[1] not in
+                                                       QPARAMS + BPARAMS))
 
 
 class Reader:
@@ -229,36 +209,32 @@ class Reader:
         return [False, True] if self.has_sq else [False]
 
     # ---- pieces
-    def base(self, x):
-        if x in (("B", "-", YT, YP), ("B", "-", YP, YT)):
-            # |.| and (.)^2 are even: y_pred - y_true and y_true - y_pred are the same loss
-            return "BPlain"
-        if x[0] == "C" and x[1] == N("_percentage_error"):
-            _need(not x[2] and kwd(x) == {"y_true": YT, "y_pred": YP, "symmetric": P("symmetric")}
-                  and "symmetric" in self.names, "arguments of " + show(x))
-            return "(BPct (o_symmetric o))"
-        if x[0] == "C" and x[1] == N("_relative_error"):
-            _need(not x[2] and kwd(x) == {"y_true": YT, "y_pred": YP, "y_pred_benchmark": YB}
-                  and "y_pred_benchmark" in self.names, "arguments of " + show(x))
-            return "BRel"
-        raise Unsupported("%s: error term %s" % (self.fname, show(x)))
-
     def point(self, x):
-        if x[0] == "C" and x[1] == N("_asymmetric_error"):
-            want = {"y_true": YT, "y_pred": YP}
-            for o in ("asymmetric_threshold", "left_error_function", "right_error_function"):
-                _need(o in self.names, "%s has no option %s" % (self.fname, o))
-                want[o] = P(o)
-            _need(not x[2] and kwd(x) == want, "arguments of " + show(x))
-            return "BPlain", "(PAsym (o_thr o) (o_left o) (o_right o))"
+        """(claimed base, claimed loss, Q expression) of the per-step loss term x.
+
+        The private helpers are inlined, so x is an element-wise expression.  Which (base, loss)
+        of the model it is supposed to be is only GUESSED here from its shape; Bridge.gen_point_eq
+        proves the emitted expression equal to that model loss for all arguments."""
+        def has(n_):
+            return contains(x, lambda t: t == P(n_))
+        inner, k = None, None
         if x[0] == "C" and x[1] == N("np.abs") and len(x[2]) == 1 and not x[3]:
-            return self.base(x[2][0]), "(P0 PAbs)"
-        if x[0] == "C" and x[1] == N("np.square") and len(x[2]) == 1 and not x[3]:
-            return self.base(x[2][0]), "(P0 PSq)"
-        if x[0] == "B" and ((x[1] == "**" and x[3] in (K(2), K(2.0))) or
-                            (x[1] == "*" and x[2] == x[3])):
-            return self.base(x[2]), "(P0 PSq)"
-        raise Unsupported("%s: point loss %s" % (self.fname, show(x)))
+            inner, k, wrap = x[2][0], "PAbs", lambda e: call(N("np.abs"), (e,))
+        elif x[0] == "C" and x[1] == N("np.square") and len(x[2]) == 1 and not x[3]:
+            inner, k, wrap = x[2][0], "PSq", lambda e: call(N("np.square"), (e,))
+        elif x[0] == "B" and ((x[1] == "**" and x[3] in (K(2), K(2.0))) or
+                              (x[1] == "*" and x[2] == x[3])):
+            inner, k, wrap = x[2], "PSq", lambda e: call(N("np.square"), (e,))
+        if inner is not None and inner in (("B", "-", YT, YP), ("B", "-", YP, YT)):
+            # |.| and (.)^2 are even: y_pred - y_true and y_true - y_pred are the same loss
+            return "BPlain", "(P0 %s)" % k, emit_point(wrap(("B", "-", YT, YP)), self.names)
+        if inner is not None:
+            b = "BRel" if has("y_pred_benchmark") else "(BPct (o_symmetric o))" \
+                if has("symmetric") else None
+            _need(b is not None, "%s: error term %s" % (self.fname, show(inner)))
+            return b, "(P0 %s)" % k, emit_point(wrap(inner), self.names)
+        _need(has("asymmetric_threshold"), "%s: point loss %s" % (self.fname, show(x)))
+        return "BPlain", "(PAsym (o_thr o) (o_left o) (o_right o))", emit_point(x, self.names)
 
     @staticmethod
     def _axis0(t, npos):
@@ -295,11 +271,18 @@ class Reader:
                   and d.get("percentile", K(50)) in (K(50), K(50.0)) and "array" in d,
                   "arguments of " + show(t))
             return d["array"], "Median"
-        if t[1] == N("_weighted_geometric_mean"):
-            d = kwd(t)
-            _need(not t[2] and set(d) == {"x", "sample_weight", "axis"} and d["sample_weight"] == hw
-                  and d["axis"] == K(0), "arguments of " + show(t))
-            return d["x"], "GMean"
+        if t[1] == N("np.exp") and len(t[2]) == 1 and not t[3]:
+            # exp(np.average(log x, weights=w, axis=0)): np.average applies 1-D weights along
+            # `axis` (its documented meaning: the model's weighted geometric mean).  A hand-written
+            # `w * np.log(x)` product, whose broadcasting is not modelled (the repaired F-C06-6),
+            # is not of this form and is refused.
+            a = t[2][0]
+            _need(a[0] == "C" and a[1] == N("np.average"), "%s: weighted aggregate %s"
+                  % (self.fname, show(t)))
+            lg, d = self._axis0(a, 1)
+            _need(d == {"weights": hw} and len(a[2]) == 1 and lg[0] == "C" and lg[1] == N("np.log")
+                  and len(lg[2]) == 1 and not lg[3], "arguments of " + show(t))
+            return lg[2][0], "GMean"
         raise Unsupported("%s: weighted aggregate %s" % (self.fname, show(t)))
 
     def gm_floor(self, x):
@@ -367,8 +350,8 @@ class Reader:
             x0, x1 = self.gm_floor(x0), self.gm_floor(x1)
         _need(x0 == x1, "%s: weighted and unweighted branches aggregate different losses: %s / %s"
               % (self.fname, show(x0), show(x1)))
-        b, pw = self.point(x0)
-        return {"fam": "FSimple %s %s %s" % (b, pw, a0),
+        b, pw, e = self.point(x0)
+        return {"fam": "FSimple %s %s %s" % (b, pw, a0), "point": e,
                 "rooted": "(o_square_root o)" if self.has_sq else "false", "simple": (b, pw, a0)}
 
     @staticmethod
@@ -491,7 +474,6 @@ def _default_opts(mod):
 
 def translate(repo):
     mod = _functions_module(repo)
-    helpers = gen_helpers(mod)
     done = {}
     # simple functions first: the scaled ones refer to them
     order = [f for f in COQ_NAME if "y_train" not in signature(mod.funcs[f])[0]] + \
@@ -508,7 +490,16 @@ def translate(repo):
             "Import ListNotations.",
             "Open Scope Q_scope.",
             ""]
-    text += helpers
+    text += ["(* the loss of one horizon step, as each function that computes it itself does after",
+             "   inlining of all private helpers; None: the function delegates (sklearn metric, or the",
+             "   inner metric of a scaled error / relative loss) *)",
+             "Definition gen_point (n : mname) (o : opts) (y_true y_pred y_pred_benchmark : Q)",
+             "  : option Q :=", "  match n with"]
+    for cn in ORDER:
+        fname = [f for f, c in COQ_NAME.items() if c == cn][0]
+        e = done[fname].get("point")
+        text.append("  | %s => %s" % (cn, "None" if e is None else "Some " + e))
+    text += ["  end."]
     text += ["", "Definition gen_struct (n : mname) (o : opts) : metric :=", "  match n with"]
     text += rows + ["  end.", ""]
     text += ["Definition gen_defaults (n : mname) : opts :=", "  match n with"]
@@ -525,7 +516,7 @@ def translate(repo):
 
 CLS_SRC = "sktime/performance_metrics/forecasting/_classes.py"
 FUNC_MODULE = "sktime.performance_metrics.forecasting._functions"
-BASE_ATTRS = ("_func", "name", "greater_is_better")
+PUBLIC_ATTRS = ("name", "greater_is_better")
 SERIES = ("y_train", "y_pred_benchmark")
 NOT_OPTIONS = ("y_true", "y_pred", "horizon_weight", "multioutput") + SERIES
 RL_FUNCS = ("mean_absolute_error", "mean_squared_error", "median_absolute_error",
@@ -581,19 +572,20 @@ def class_facts(repo):
         ctor = ctor[1:]
         ctor_defaults = [(p_, _ctor_default(c.name, p_, ctor_d[p_], init)) for p_ in ctor]
         store = construct(mod, c, ctor)
-        fv = store.get("_func")
-        _need(fv is not None and fv[0] == "N" and fv[1] in sigs
-              and mod.imports.get(fv[1]) == (FUNC_MODULE, fv[1]),
-              "wrapped function of %s: %s" % (c.name, show(fv) if fv else None), c)
+        # the attribute holding the wrapped function, whatever it is called
+        fattrs = [a for a, v in store.items() if v[0] == "N" and v[1] in sigs
+                  and mod.imports.get(v[1]) == (FUNC_MODULE, v[1])]
+        _need(len(fattrs) == 1, "wrapped function of %s: attributes %s" % (c.name, fattrs), c)
+        fattr, fv = fattrs[0], store[fattrs[0]]
         attrs = {}
         for a, v in store.items():
-            if a in BASE_ATTRS:
+            if a == fattr or a in PUBLIC_ATTRS:
                 continue
             attrs[a] = ("arg", v[1]) if (v[0] == "P" and v[1] in ctor) else ("fixed",)
         params, defaults, kw, t = method_term(mod, c, "__call__")
         _need(params == ["y_true", "y_pred"] and not any(defaults[p_] is not None for p_ in params),
               "signature of %s.__call__" % c.name, c)
-        _need(t[0] == "C" and t[1] == ("ATTR", P("self"), "_func") and t[2] == (YT, YP),
+        _need(t[0] == "C" and t[1] == ("ATTR", P("self"), fattr) and t[2] == (YT, YP),
               "%s.__call__ computes %s" % (c.name, show(t)), c)
         fw, forwards_kwargs = [], False
         for k, v in t[3]:
